@@ -233,16 +233,17 @@ def _shard_shrink(args):
             if d is not None:
                 last["case"], last["detail"] = fallback, d
         if "case" in last:
-            case, detail = ddmin(last["case"], fails, budget=400)
+            case, detail = ddmin(last["case"], fails, budget=400, keys=getattr(mod, "SHRINK_KEYS", ("ops",)))
             return {"bucket": bucket, "case": case, "detail": detail or last["detail"]}
     except BaseException:  # noqa: BLE001
         return {"bucket": bucket, "case": fallback, "detail": "shrink failed: " + traceback.format_exc()[-400:]}
     return {"bucket": bucket, "case": fallback, "detail": "(not reproduced while shrinking)"}
 
 
-def ddmin(case, fails, budget=400):
-    """Generic structural minimiser over JSON: drop list elements anywhere while `fails` stays true.
-    Runs after Hypothesis's shrinker (usually a no-op then) and for cases from enumerated spaces."""
+def ddmin(case, fails, budget=400, keys=("ops",)):
+    """Structural minimiser over JSON: drop elements of the lists stored under `keys` (operation
+    histories - any sub-sequence of a history is again in the generator's domain) while `fails` stays
+    true.  Runs after Hypothesis's shrinker (usually a no-op then) and for enumerated cases."""
     best = case
     best_detail = fails(best)
     if best_detail is None:
@@ -250,13 +251,14 @@ def ddmin(case, fails, budget=400):
     spent = [0]
 
     def paths(x, pre=()):
-        if isinstance(x, list):
-            yield pre
+        if isinstance(x, dict):
+            for k in sorted(x):
+                if k in keys and isinstance(x[k], list):
+                    yield pre + (k,)
+                yield from paths(x[k], pre + (k,))
+        elif isinstance(x, list):
             for i, y in enumerate(x):
                 yield from paths(y, pre + (i,))
-        elif isinstance(x, dict):
-            for k in sorted(x):
-                yield from paths(x[k], pre + (k,))
 
     def get(x, p):
         for k in p:
